@@ -105,13 +105,22 @@ Proof.
   destruct (pe_comments ts) as [[[e0 r0] n0] early] eqn:E0.
   pose proof (pe_comments_cons _ _ _ _ _ E0) as C0.
   destruct early; [inversion H; subst; exact C0|].
-  destruct (pe_expect KEY r0) as [[e1 r1] n1] eqn:E1.
-  destruct (pe_expect COLON r1) as [[e2 r2] n2] eqn:E2.
-  destruct (pe_lines (S (length r2)) r2) as [[[e3 r3] n3]| | |] eqn:E3; try discriminate.
-  inversion H; subst.
-  apply pe_expect_cons in E1. apply pe_expect_cons in E2. apply pe_lines_cons in E3.
-  eapply cons_inv_trans; [exact C0|]. apply cons_inv_node.
-  eapply cons_inv_trans; [exact E1|]. eapply cons_inv_trans; eassumption.
+  assert (Hmain : (let '(e1, r1, n1) := pe_expect KEY r0 in
+                   let '(e2, r2, n2) := pe_expect COLON r1 in
+                   match pe_lines (S (length r2)) r2 with
+                   | Ok (e3, r3, n3) => Ok (e0 ++ [Node ENTRY (e1 ++ e2 ++ e3)], r3, n0 + n1 + n2 + n3)
+                   | Err x => Err x | Panic x => Panic x | OutOfFuel => OutOfFuel
+                   end) = Ok (e, r, n) -> cons_inv e r ts).
+  { clear H. intros H.
+    destruct (pe_expect KEY r0) as [[e1 r1] n1] eqn:E1.
+    destruct (pe_expect COLON r1) as [[e2 r2] n2] eqn:E2.
+    destruct (pe_lines (S (length r2)) r2) as [[[e3 r3] n3]| | |] eqn:E3; try discriminate.
+    inversion H; subst.
+    apply pe_expect_cons in E1. apply pe_expect_cons in E2. apply pe_lines_cons in E3.
+    eapply cons_inv_trans; [exact C0|]. apply cons_inv_node.
+    eapply cons_inv_trans; [exact E1|]. eapply cons_inv_trans; eassumption. }
+  destruct (cur r0) as [k|]; [|inversion H; subst; exact C0].
+  destruct k; try (apply Hmain; exact H). inversion H; subst; exact C0.
 Qed.
 
 Lemma pp_entries_cons fuel : forall ts e r n, pp_entries fuel ts = Ok (e, r, n) -> cons_inv e r ts.
@@ -248,24 +257,47 @@ Qed.
 
 Lemma parse_entry_total ts : exists e r n,
   parse_entry ts = Ok (e, r, n) /\ n + length r <= length ts + 2 /\ length r <= length ts /\
-  (ts <> [] -> length r < length ts).
+  (match cur ts with None | Some NEWLINE => False | _ => True end -> length r < length ts).
 Proof.
   unfold parse_entry.
   destruct (pe_comments ts) as [[[e0 r0] n0] early] eqn:E0.
   pose proof (pe_comments_bound _ _ _ _ _ E0) as [B0 S0].
+  assert (Hprog : match cur ts with None | Some NEWLINE => False | _ => True end ->
+                  (match ts with (COMMENT, _) :: _ => length r0 < length ts | _ => r0 = ts end)).
+  { intros Hc. destruct ts as [|[k s] t]; [contradiction|]. destruct k; try (apply S0). }
   destruct early.
   - do 3 eexists. split; [reflexivity|]. repeat split; try lia.
-    intros Hne. destruct ts as [|[k s] t]; [congruence|].
-    destruct k; try (destruct S0 as (_ & _ & F); discriminate). exact S0.
-  - destruct (pe_expect KEY r0) as [[e1 r1] n1] eqn:E1.
-    destruct (pe_expect COLON r1) as [[e2 r2] n2] eqn:E2.
-    apply pe_expect_bound in E1. apply pe_expect_bound in E2.
-    destruct E1 as (L1 & N1 & P1). destruct E2 as (L2 & N2 & P2).
-    destruct (pe_lines_total (S (length r2)) r2) as (e3 & r3 & n3 & E3 & B3); [lia|]. rewrite E3.
-    do 3 eexists. split; [reflexivity|]. repeat split; try lia.
-    intros Hne. destruct ts as [|[k s] t]; [congruence|].
-    destruct k; try (destruct S0 as (-> & _ & _); assert (length r1 < length ((_, s) :: t)) by (apply P1; congruence); lia).
-    lia.
+    intros Hc. specialize (Hprog Hc). destruct ts as [|[k s] t]; [contradiction|].
+    destruct k; try (destruct S0 as (_ & _ & F); discriminate). exact Hprog.
+  - assert (Hstop : exists e r n, Ok (e0, r0, n0) = Ok (e, r, n) /\ n + length r <= length ts + 2 /\ length r <= length ts /\
+              (match cur ts with None | Some NEWLINE => False | _ => True end ->
+               match cur r0 with None | Some NEWLINE => True | _ => False end -> length r < length ts)).
+    { do 3 eexists. split; [reflexivity|]. repeat split; try lia.
+      intros Hc Hr. specialize (Hprog Hc). destruct ts as [|[k s] t]; [contradiction|].
+      destruct k; try (subst r0; cbn in Hc, Hr; contradiction). exact Hprog. }
+    assert (Hgo : exists e r n,
+       (let '(e1, r1, n1) := pe_expect KEY r0 in
+        let '(e2, r2, n2) := pe_expect COLON r1 in
+        match pe_lines (S (length r2)) r2 with
+        | Ok (e3, r3, n3) => Ok (e0 ++ [Node ENTRY (e1 ++ e2 ++ e3)], r3, n0 + n1 + n2 + n3)
+        | Err x => Err x | Panic x => Panic x | OutOfFuel => OutOfFuel
+        end) = Ok (e, r, n) /\ n + length r <= length ts + 2 /\ length r <= length ts /\
+       (r0 <> [] -> length r < length ts)).
+    { destruct (pe_expect KEY r0) as [[e1 r1] n1] eqn:E1.
+      destruct (pe_expect COLON r1) as [[e2 r2] n2] eqn:E2.
+      apply pe_expect_bound in E1. apply pe_expect_bound in E2.
+      destruct E1 as (L1 & N1 & P1). destruct E2 as (L2 & N2 & P2).
+      destruct (pe_lines_total (S (length r2)) r2) as (e3 & r3 & n3 & E3 & B3); [lia|]. rewrite E3.
+      do 3 eexists. split; [reflexivity|]. repeat split; try lia.
+      intros Hne. specialize (P1 Hne). lia. }
+    destruct (cur r0) as [k|] eqn:Ec.
+    + assert (Hne : r0 <> []) by (intro; subst; discriminate).
+      destruct Hstop as (e & r & n & Es & B1 & B2 & B3).
+      destruct Hgo as (e' & r' & n' & Eg & G1 & G2 & G3).
+      destruct k; try (exists e', r', n'; split; [exact Eg|]; repeat split; try lia; intros _; apply G3; exact Hne).
+      exists e, r, n. split; [exact Es|]. repeat split; try lia. intros Hc. apply B3; [exact Hc|exact I].
+    + destruct Hstop as (e & r & n & Es & B1 & B2 & B3).
+      exists e, r, n. split; [exact Es|]. repeat split; try lia. intros Hc. apply B3; [exact Hc|exact I].
 Qed.
 
 Lemma pp_entries_total fuel : forall ts, length ts <= fuel -> exists e r n,
@@ -279,9 +311,10 @@ Proof.
     + remember ((k, s) :: t) as ts.
       assert (Hc : cur ts = Some k) by (subst; reflexivity). rewrite Hc.
       destruct (parse_entry_total ts) as (e1 & r1 & n1 & E1 & B1 & L1 & P1).
-      assert (Hp : length r1 < length ts) by (apply P1; subst; congruence).
-      destruct (IH r1) as (e2 & r2 & n2 & E2 & B2 & L2 & _); [lia|].
-      destruct k; try (rewrite E1, E2; do 3 eexists; split; [reflexivity|]; repeat split; try lia; intros _; lia).
+      rewrite Hc in P1.
+      destruct k;
+        try (specialize (P1 I); destruct (IH r1) as (e2 & r2 & n2 & E2 & B2 & L2 & _); [lia|];
+             rewrite E1, E2; do 3 eexists; split; [reflexivity|]; repeat split; try lia; intros _; lia).
       do 3 eexists. split; [reflexivity|]. repeat split; try lia; tauto.
 Qed.
 
